@@ -13,16 +13,26 @@ import (
 
 // symbols ids are built from: many ids are prefixes of each other; multi-byte runes check that the
 // model's string order is the code's byte order.
-var symbols = []string{"a", "b", "ab", "a/", "a0", "0", "-", "_", "A", "z", "~", "é", "ÿ", "߿", "￿", "𝄞", ".", "aa"}
+var symbols = []string{"a", "b", "ab", "a/", "a0", "0", "-", "_", "A", "z", "~", "é", "ÿ", "߿", "￿", "𝄞", ".", "aa",
+	// characters that mean something to base64, URLs, shells and line protocols
+	" ", "\n", "\x00", "+", "=", "%", "\"", "\\", ",", "\t", "\x7f", "?", "#"}
 
 func genID(r *rand.Rand) string {
 	n := 1 + r.Intn(4)
+	switch r.Intn(12) {
+	case 0:
+		n = 12 + r.Intn(30) // longer than any id a model generates itself (at most 20 characters)
+	case 1:
+		n = 60 + r.Intn(200)
+	}
 	s := ""
 	for i := 0; i < n; i++ {
 		s += symbols[r.Intn(len(symbols))]
 	}
 	return s
 }
+
+var longPrefixes = []string{"site-7/lobby/lift-bank-A/hail-", "urn:smartcore:building/floor 3/zone+7=", "ééééééééééééééééé/"}
 
 // genIDs returns n distinct non-empty ids in random (insertion) order.
 func genIDs(r *rand.Rand, n int) []string {
@@ -31,14 +41,22 @@ func genIDs(r *rand.Rand, n int) []string {
 	if n > 200 || r.Intn(4) == 0 {
 		// sequential ids with a shared prefix, shuffled
 		w := 1 + r.Intn(4)
+		prefix := "id-"
+		if r.Intn(3) == 0 {
+			prefix = longPrefixes[r.Intn(len(longPrefixes))]
+		}
 		for i := 0; i < n; i++ {
-			ids = append(ids, fmt.Sprintf("id-%0*d", w, i))
+			ids = append(ids, fmt.Sprintf("%s%0*d", prefix, w, i))
 		}
 		r.Shuffle(len(ids), func(i, j int) { ids[i], ids[j] = ids[j], ids[i] })
 		return ids
 	}
+	prefix := ""
+	if r.Intn(6) == 0 {
+		prefix = longPrefixes[r.Intn(len(longPrefixes))] // hierarchical names: every id is long
+	}
 	for len(ids) < n {
-		id := genID(r)
+		id := prefix + genID(r)
 		if len(seen) > 3 && r.Intn(3) == 0 {
 			// extend an existing id: prefix relation
 			id = ids[r.Intn(len(ids))] + symbols[r.Intn(len(symbols))]
